@@ -398,6 +398,12 @@ func (g *gen) sop(inBody bool) *SOp {
 	if inBody {
 		defCtx = "define-body"
 	}
+	// a composite literal with expression operands, many of them components of the destination itself
+	if g.chance(0.07) {
+		if o := g.clit(inBody); o != nil {
+			return o
+		}
+	}
 	// receive into a location / a new variable (assigned like any value since commit 177a151: F08-7)
 	if g.chance(0.06) {
 		if g.chance(0.25) && !(inBody && len(g.e) > 9) {
@@ -693,6 +699,175 @@ func (g *gen) multi() *SOp {
 		}
 	}
 	return o
+}
+
+type comp struct {
+	path []int
+	t    *Type
+}
+
+// comps lists the components of a value of type t down to depth 2 (not through references).
+func comps(t *Type, prefix []int, depth int, out *[]comp) {
+	n := 0
+	switch t.K {
+	case "struct":
+		n = len(t.Fields)
+	case "array":
+		n = t.N
+	}
+	for i := 0; i < n; i++ {
+		ct := t.Elem
+		if t.K == "struct" {
+			ct = t.Fields[i].T
+		}
+		p := append(append([]int{}, prefix...), i)
+		*out = append(*out, comp{p, ct})
+		if depth > 1 {
+			comps(ct, p, depth-1, out)
+		}
+	}
+}
+
+// below extends an addressable expression of type t by a path of field / element indices.
+func below(l *LExp, t *Type, path []int) *LExp {
+	for _, i := range path {
+		if t.K == "struct" {
+			l, t = &LExp{K: "f", L: l, I: i}, t.Fields[i].T
+		} else {
+			l, t = &LExp{K: "x", L: l, E: &IExp{N: i}}, t.Elem
+		}
+	}
+	return l
+}
+
+// operand builds the expression stored in a component of type ct of a literal assigned to dst (of type t): mostly a
+// component of the destination itself — read directly or through a pointer alias when one is in scope.
+func (g *gen) operand(dst *LExp, t *Type, ct *Type) *RExp {
+	if dst != nil && g.chance(0.7) {
+		var all, ok []comp
+		comps(t, nil, 2, &all)
+		for _, c := range all {
+			if c.t == ct {
+				ok = append(ok, c)
+			}
+		}
+		if len(ok) > 0 {
+			c := ok[g.pick(len(ok))]
+			base := dst
+			if isVar(dst) && g.chance(0.3) {
+				// through a pointer to the destination's type (it may well point to the destination)
+				if p := g.loc(ty("*" + t.Src)); p != nil && isVar(p.l) {
+					base = &LExp{K: "d", L: p.l}
+				}
+			}
+			return &RExp{K: "ld", T: ct.Src, L: below(base, t, c.path)}
+		}
+	}
+	return g.rexp(ct, "arg")
+}
+
+func (g *gen) clit(inBody bool) *SOp {
+	var ok []loc
+	for _, c := range g.locs(nil) {
+		if c.t.K == "struct" || c.t.K == "array" {
+			ok = append(ok, c)
+		}
+	}
+	if len(ok) == 0 {
+		return nil
+	}
+	d := ok[g.pick(len(ok))]
+	o := &SOp{K: "clit", L: d.l, T: d.t.Src}
+	dst := d.l
+	if g.chance(0.2) && !(inBody && len(g.e) > 9) {
+		// declaration: the operands read other variables of the type (or anything else)
+		o.IsDef, o.L = true, &LExp{K: "v", X: g.fresh()}
+	}
+	return g.fillLit(o, dst, d.t)
+}
+
+// fillLit chooses the operands: all top-level components (positional or keyed) or a part of them (keyed), some as
+// nested literals.
+func (g *gen) fillLit(o *SOp, dst *LExp, t *Type) *SOp {
+	var top []comp
+	comps(t, nil, 1, &top)
+	full := g.chance(0.65)
+	o.Keyed = !full || g.chance(0.4)
+	perm := g.rng.Perm(len(top))
+	for _, k := range perm {
+		c := top[k]
+		if !full && g.chance(0.5) {
+			continue
+		}
+		if (c.t.K == "struct" || c.t.K == "array") && g.chance(0.3) {
+			// a nested literal giving some of its components
+			var sub []comp
+			comps(c.t, c.path, 1, &sub)
+			for _, sc := range sub {
+				if g.chance(0.6) {
+					if r := g.operand(dst, t, sc.t); r != nil {
+						o.Elems = append(o.Elems, LitElem{P: sc.path, R: *r})
+					}
+				}
+			}
+			if o.Keyed || len(sub) == 0 {
+				continue
+			}
+			// positional rendering needs the component to be present: fall through only if nothing was given
+			given := false
+			for _, e := range o.Elems {
+				given = given || hasPrefix(e.P, c.path)
+			}
+			if given {
+				continue
+			}
+		}
+		r := g.operand(dst, t, c.t)
+		if r == nil {
+			return nil
+		}
+		o.Elems = append(o.Elems, LitElem{P: c.path, R: *r})
+	}
+	// a positional operand that contains an index of a pointer to an array below a selector or an address-of (`pa[i].f`,
+	// `&pa[i]`, explicit or implicit dereference) crashes the interpreter's compiler (open finding F04-21, source template
+	// with a class label): literals with such an operand are rendered keyed
+	var ptrIndex func(l *LExp) bool
+	ptrIndex = func(l *LExp) bool {
+		for ; l != nil && l.K != "v"; l = l.L {
+			if l.K == "x" && (l.L.K == "d" || lexpType(g.e, l.L).K == "ptr") {
+				return true
+			}
+		}
+		return false
+	}
+	for i := range o.Elems {
+		for r := &o.Elems[i].R; r != nil; r = r.A {
+			if r.L != nil && ptrIndex(r.L) {
+				o.Keyed = true
+			}
+		}
+	}
+	if !o.Keyed {
+		// positional literals list their operands in order
+		sortElems(o.Elems)
+	}
+	return o
+}
+
+func sortElems(es []LitElem) {
+	less := func(a, b []int) bool {
+		for i := 0; i < len(a) && i < len(b); i++ {
+			if a[i] != b[i] {
+				return a[i] < b[i]
+			}
+		}
+		return len(a) < len(b)
+	}
+	for i := 1; i < len(es); i++ {
+		for j := i; j > 0 && less(es[j].P, es[j-1].P); j-- {
+			es[j], es[j-1] = es[j-1], es[j]
+		}
+	}
 }
 
 // sameScope lists the variables declared in the scope a new statement would belong to: the pool at top level, the
